@@ -778,6 +778,12 @@ impl NetWorld {
     /// a fair schedule: always the transition that has been enabled for the longest time
     /// (ties: canonical order).  Ok(steps) at quiescence, Err(steps) when the budget ran out.
     pub fn run_fair(&mut self, max_steps: usize) -> Result<Result<usize, usize>, String> {
+        let mut unused = vec![];
+        self.run_fair_traced(max_steps, &mut unused)
+    }
+
+    /// as run_fair; the transitions taken are appended to `trace`
+    pub fn run_fair_traced(&mut self, max_steps: usize, trace: &mut Vec<T>) -> Result<Result<usize, usize>, String> {
         self.pump();
         let mut since: Vec<(T, usize)> = vec![];
         let mut n = 0;
@@ -798,6 +804,7 @@ impl NetWorld {
             let pick = since.iter().min_by_key(|(_, k)| *k).map(|(t, _)| t.clone()).unwrap();
             since.retain(|(t, _)| *t != pick);
             self.apply(&pick)?;
+            trace.push(pick);
             n += 1;
         }
     }
@@ -1052,6 +1059,37 @@ pub fn explore_net(
     let findings: Mutex<Vec<NetFinding>> = Mutex::new(vec![]);
     let fatal: Mutex<Option<String>> = Mutex::new(None);
     let workers = if cfg.workers == 0 { std::thread::available_parallelism().map(|n| n.get()).unwrap_or(4) } else { cfg.workers };
+    if cfg.by_deviations {
+        // before anything else: the fair schedule (oldest enabled transition first) from the
+        // start state; its quiet state is judged like any other
+        let mut w = mk()?;
+        w.pump();
+        let mut trace: Vec<T> = vec![];
+        let r = w.run_fair_traced(FAIR_TAIL_STEPS, &mut trace);
+        let mut st = stats.lock().unwrap();
+        st.replays += 1;
+        match r {
+            Err(e) => {
+                w.shutdown();
+                return Err(format!("{} ; on the fair schedule after {:?}", e, path_str(&trace)));
+            }
+            Ok(Ok(_)) => {
+                st.quiescent_states += 1;
+                st.max_path = st.max_path.max(trace.len());
+                for (clause, detail) in w.problems.drain(..) {
+                    findings.lock().unwrap().push(NetFinding { clause, detail, path: trace.clone() });
+                }
+                for (clause, detail) in on_quiescent(&w, &trace) {
+                    findings.lock().unwrap().push(NetFinding { clause, detail, path: trace.clone() });
+                }
+            }
+            Ok(Err(n)) => {
+                findings.lock().unwrap().push(NetFinding { clause: "no-quiescence-under-fair-schedule".into(), detail: format!("the fair schedule (oldest enabled transition first) ran {} steps from the start state without the cluster going quiet; enabled {:?}", n, w.enabled(true)), path: trace.clone() });
+            }
+        }
+        drop(st);
+        w.shutdown();
+    }
     std::thread::scope(|s| {
         for _ in 0..workers {
             s.spawn(|| loop {
